@@ -8,6 +8,9 @@ Evaluates the seeded change in /tmp/seed-<ID>/ (or /verif/seeded/<name>/):
 import sys, os, subprocess, json, shutil, glob, time
 sid = sys.argv[1]
 src = '/tmp/seed-' + sid if os.path.isdir('/tmp/seed-' + sid) else '/verif/seeded/' + sid
+for i, a in enumerate(sys.argv):
+    if a == '--src':
+        src = sys.argv[i + 1]
 props = [sid[:3]]
 for i, a in enumerate(sys.argv):
     if a == '--props':
